@@ -193,6 +193,35 @@ for sig in list(range(-2, 18)) + [255]:
     def hc():
         m2.count_cores_in_state(sig, app); return m2.calls
     add("MachineController_count_cores_in_state %s %s" % (L(sig), L(app)), exc(hc))
+from rig.machine_control.packets import SDPPacket, SCPPacket, _unpack_sdp_into_packet
+def B(v): return "true" if v else "false"
+def exc_(f):
+    try:
+        return "Except.ok" + " " + f()
+    except Exception as e:
+        n = type(e).__name__
+        return 'Except.error "%s"' % ("struct.error" if n == "error" else n)
+def sdp_args(p): return " ".join([B(p.reply_expected)] + [L(getattr(p, a)) for a in ("tag", "dest_port", "dest_cpu", "src_port", "src_cpu", "dest_x", "dest_y", "src_x", "src_y")] + [L([int(b) for b in bytearray(p.data)])])
+def sdp_state(p): return [B(p.reply_expected)] + [show(getattr(p, a)) for a in ("tag", "dest_port", "dest_cpu", "src_port", "src_cpu", "dest_x", "dest_y", "src_x", "src_y")] + [show([int(b) for b in bytearray(p.data)])]
+def OI(x): return "none" if x is None else "(some %s)" % L(x)
+def SO(x): return "none" if x is None else "some" + show(x)
+for _ in range(40):
+    r8 = lambda: rng.choice([0, 1, 7, 31, 255, 255, 256, 300, rng.randint(0, 255)])
+    kw = dict(reply_expected=rng.random() < 0.5, tag=r8(), dest_port=rng.randint(0, 9), dest_cpu=rng.randint(0, 40), src_port=rng.randint(0, 9),
+              src_cpu=rng.randint(0, 40), dest_x=r8(), dest_y=r8(), src_x=r8(), src_y=r8(), data=bytes(bytearray(rng.getrandbits(8) for _ in range(rng.randint(0, 5)))))
+    p = SDPPacket(**kw)
+    add("SDPPacket_bytestring " + sdp_args(p), exc_(lambda: "(" + ",".join([show([int(b) for b in bytearray(p.bytestring)])] + sdp_state(p)) + ")"))
+    r32 = lambda: rng.choice([None, 0, 1, 2**32 - 1, 2**32, rng.getrandbits(32)])
+    q = SCPPacket(cmd_rc=rng.choice([0, 3, 65535, 65536]), seq=rng.choice([0, 9, 65535, 70000]), arg1=r32(), arg2=r32(), arg3=r32(), **kw)
+    scp_args = sdp_args(q) + " %s %s %s %s %s" % (L(q.cmd_rc), L(q.seq), OI(q.arg1), OI(q.arg2), OI(q.arg3))
+    scp_state = sdp_state(q) + [show(q.cmd_rc), show(q.seq), SO(q.arg1), SO(q.arg2), SO(q.arg3)]
+    add("SCPPacket_packed_data " + scp_args, exc_(lambda: "(" + ",".join([show([int(b) for b in bytearray(q.packed_data)])] + scp_state) + ")"))
+    add("SCPPacket_bytestring " + scp_args, exc_(lambda: "(" + ",".join([show([int(b) for b in bytearray(q.bytestring)])] + scp_state) + ")"))
+    bs = bytes(bytearray(rng.getrandbits(8) for _ in range(rng.choice([0, 5, 9, 10, 11, 14, 20]))))
+    t = SDPPacket()
+    def hu():
+        _unpack_sdp_into_packet(t, bs); return "(" + ",".join(sdp_state(t)) + ")"
+    add("unpack_sdp_into_packet " + sdp_args(p) + " " + L([int(b) for b in bytearray(bs)]), exc_(hu))
 import warnings as _w
 class PRec(object):
     _freed = False
@@ -239,6 +268,7 @@ bad = 0
 if len(got) != len(cases):
     print("count mismatch", len(got), len(cases)); print(out[:3000])
 for (ex, want), g in zip(cases, got):
+    g = g.replace("some ", "some")
     g2 = g.replace(" ", "").replace("Except.ok", "Except.ok ").replace("Except.error", "Except.error ")
     w2 = want.replace(" ", "").replace("Except.ok", "Except.ok ").replace("Except.error", "Except.error ")
     if g2 != w2:
